@@ -24,6 +24,7 @@ EXPLANATION = (
     "terminal-property change."
     " Added after seed round 3: _last_row's back-step is the width of the text written last (calc_width of the Z text); `self._resized` is tested again between the walk over canvas.content() and the write / screen_buf store; (9) ACCUM - the row counter of draw_screen advances for skipped rows too; (10) KIND - in the HTML back-end everything added to / compared with the cursor column is a calc_width() result, never a character count."
     " Round 4: the 'same canvas object as last time' shortcut of draw_screen reads screen_buf (which clear(), resize and stop reset); (11) LOOPFRESH on per-row state of the two draw_screen implementations."
+    " Round-4 triage: (12) the erase-to-end-of-line shortcut is disabled for every style flag _attrspec_to_escape() emits that is drawn on blank cells (all but bold / italics / blink)."
 )
 NOT_DECIDED = "The effect of the escape stream on a terminal across frame histories, the erase-to-end-of-line and insert-mode equivalences, no-scroll - these need a terminal interpreter, i.e. execution."
 ASSUMPTIONS = []
@@ -401,6 +402,55 @@ def rule_html_cursor_columns(ctx: Ctx) -> RuleResult:
     return rr
 
 
+# style flags whose SGR changes only how a glyph is drawn: a blank cell looks the same with and without them
+_INVISIBLE_ON_BLANK = {"bold": "glyph weight only", "italics": "glyph slant only", "blink": "nothing to blink on a blank cell"}
+
+
+def rule_erase_shortcut(ctx: Ctx) -> RuleResult:
+    """Trailing blanks of a row are replaced by erase-in-line (ESC[K), which fills with the background colour and
+    nothing else.  That equals painting the blanks only when the row's attribute draws nothing on a blank cell:
+    the test that enables the shortcut must exclude every style flag _attrspec_to_escape() can emit, except the
+    ones that only change how a glyph looks (table above).  The flag set is read from _attrspec_to_escape()."""
+    p = ctx.p
+    rr = RuleResult("TAB", "C04.12", "the erase-to-end-of-line shortcut is disabled for every style that is drawn on blank cells (all style flags of _attrspec_to_escape except glyph-only ones)", floor=2)
+    ds = p.func("urwid.display._raw_display_base.Screen.draw_screen")
+    esc = p.func("urwid.display._raw_display_base.Screen._attrspec_to_escape")
+    prm = [x for x in esc.params if x != esc.self_name][0]
+    flags = set()
+    for n in esc.own_nodes():
+        if isinstance(n, ast.BinOp) and isinstance(n.op, ast.Mult):
+            for side in (n.left, n.right):
+                if isinstance(side, ast.Attribute) and isinstance(side.value, ast.Name) and side.value.id == prm:
+                    flags.add(side.attr)
+    if len(flags) < 4:
+        raise AnalysisError("_attrspec_to_escape: the style flags (`\"1;\" * a.bold` ...) were not found")
+    need = flags - set(_INVISIBLE_ON_BLANK)
+    rr.inst("style flags", True, {"emitted_by__attrspec_to_escape": sorted(flags), "glyph_only": _INVISIBLE_ON_BLANK, "must_disable_the_shortcut": sorted(need)})
+    cfg = cfg_of(ds)
+    stores = [n for n in cfg.nodes if isinstance(n.ast, ast.Assign) and any(isinstance(t, ast.Name) and t.id == "whitespace_at_end" for t in n.ast.targets) and isinstance(n.ast.value, ast.Constant) and n.ast.value.value is True]
+    if not stores:
+        # role-based: the store that is tested before ERASE_IN_LINE_RIGHT is appended
+        names = {t.ast.id for t in cfg.nodes if t.kind == "test" and isinstance(t.ast, ast.Name) and any("ERASE_IN_LINE_RIGHT" in ast.unparse(x.ast) for x in cfg.reachable_from_edges([(t, "T")]) if x.ast is not None)}
+        stores = [n for n in cfg.nodes if isinstance(n.ast, ast.Assign) and any(isinstance(t, ast.Name) and t.id in names for t in n.ast.targets) and isinstance(n.ast.value, ast.Constant) and n.ast.value.value is True]
+    if not stores:
+        raise AnalysisError("draw_screen: the store that enables the erase-in-line shortcut was not found")
+    nested = {f.name: f for f in p.functions.values() if getattr(f, "parent", None) is ds}
+    for st in stores:
+        tests = [t for t in cfg.nodes if t.kind == "test" and st not in ExcEngine._reach_without_edge(cfg, t, "T")]
+        read = set()
+        for t in tests:
+            for c in ast.walk(t.ast):
+                if isinstance(c, ast.Call) and isinstance(c.func, ast.Name) and c.func.id in nested:
+                    g = nested[c.func.id]
+                    read |= {a.attr for a in g.own_nodes() if isinstance(a, ast.Attribute)}
+                elif isinstance(c, ast.Attribute):
+                    read.add(c.attr)
+        rr.inst("shortcut guard", True, {"guard": [norm(t.ast, 90) for t in tests], "flags_tested": sorted(read & flags)})
+        for f in sorted(need - read):
+            rr.add(finding("TAB", ds, st.stmt, f"the erase-to-end-of-line shortcut is taken for attributes with `{f}` set: ESC[K fills the trailing blanks with the background colour only, so the {f} decoration the canvas shows on those cells is missing from the terminal (a full repaint would draw it)", construct=f"erase shortcut not disabled for {f}"))
+    return rr
+
+
 def run(ctx: Ctx):
     r6 = c17.rule_palette_cache(ctx, "C04.6")
     r7 = c17.rule_palette_total(ctx, "C04.7")
@@ -408,12 +458,14 @@ def run(ctx: Ctx):
     r8.clause = "C04.8"
     r9 = accum.run_accum(ctx.p, "C04.9", "C04", floor=1)
     r11 = loopfresh.run_loopfresh(ctx.p, "C04.11", "C04", floor=3)
-    return [rule_triple(ctx), rule_last_row_triple(ctx), rule_cursor(ctx), rule_repaint(ctx), rule_charset_first(ctx), rule_html(ctx), rule_html_cursor_columns(ctx), r6, r7, r8, r9, r11]
+    return [rule_triple(ctx), rule_last_row_triple(ctx), rule_cursor(ctx), rule_repaint(ctx), rule_charset_first(ctx), rule_html(ctx), rule_html_cursor_columns(ctx), r6, r7, r8, r9, r11, rule_erase_shortcut(ctx)]
 
 
 _RW = "urwid/display/_raw_display_base.py"
 _HT = "urwid/display/html_fragment.py"
 MUTANTS = [
+    Mut("erase-shortcut-with-strikethrough", _RW, "urwid.display._raw_display_base.Screen.draw_screen", "(a.standout or a.underline or a.strikethrough)", "(a.standout or a.underline)", "TAB|display._raw_display_base.Screen.draw_screen|erase shortcut not disabled for strikethrough"),
+    Mut("twin-erase-shortcut-any-form", _RW, "urwid.display._raw_display_base.Screen.draw_screen", "(a.standout or a.underline or a.strikethrough)", "any((a.strikethrough, a.underline, a.standout))", twin=True),
     Mut("cursor-row-only-with-cursor", _RW, "urwid.display._raw_display_base.Screen.draw_screen", "            self._cy = y\n        else:\n            # without a cursor the terminal stays on the row painted last\n            self._cy = cy\n", "            self._cy = y\n", "INV|display._raw_display_base.Screen.draw_screen|_cy not recorded"),
     Mut("palette-update-without-repaint", _RW, "urwid.display._raw_display_base.Screen._on_update_palette_entry", "        # rows drawn with the old meaning of this name are no longer what the terminal should show\n        self.clear()\n", "", "INV|display._raw_display_base.Screen._on_update_palette_entry"),
     Mut("identity-shortcut-ignores-clear", _RW, "urwid.display._raw_display_base.Screen.draw_screen", "if self.screen_buf and canvas is self._screen_buf_canvas:", "if canvas is self._screen_buf_canvas:", "INV|display._raw_display_base.Screen.draw_screen|identity shortcut"),
